@@ -626,8 +626,8 @@ func c12R5(c *Ctx) {
 			return true
 		}
 		src := derefString(fn, as.Rhs[0])
-		if !strings.Contains(src, ".Bandwidth.") {
-			return true
+		if !strings.Contains(src, ".Bandwidth.") || isPurePath(as.Rhs[0]) {
+			return true // (a plain copy of the rate into a local is seen through, not judged)
 		}
 		lhs := exprString(as.Lhs[0])
 		dir := ""
@@ -660,7 +660,7 @@ func c12R5(c *Ctx) {
 	n := 0
 	ast.Inspect(fn.Decl.Body, func(nd ast.Node) bool {
 		as, ok := nd.(*ast.AssignStmt)
-		if !ok || len(as.Lhs) != 1 || len(as.Rhs) != 1 || !strings.Contains(derefString(fn, as.Rhs[0]), ".Bandwidth.") {
+		if !ok || len(as.Lhs) != 1 || len(as.Rhs) != 1 || !strings.Contains(derefString(fn, as.Rhs[0]), ".Bandwidth.") || isPurePath(as.Rhs[0]) {
 			return true
 		}
 		v := identObj(info, as.Lhs[0])
